@@ -3,7 +3,7 @@
    version the models are in bijection with the proper colourings). *)
 From Coq Require Import ZArith List Bool Lia ZifyBool.
 From Cnfgen Require Import Sem Comb Linear SemFacts LinearFacts IR IRFacts C02Common C02CommonFacts
-  Fam_tseitin_Facts Fam_coloring.
+  Fam_tseitin Fam_tseitin_Facts Fam_coloring.
 Import ListNotations.
 Open Scope Z_scope.
 
@@ -154,4 +154,25 @@ Proof.
     apply Z.even_spec in F as [q Hq]. lia.
   - intros H v Hv. specialize (F v Hv). apply In_rng in Hv. specialize (H v Hv). cbn [ir_holds cop_holds].
     apply Z.even_spec in F as [q Hq]. lia.
+Qed.
+
+(* T3 (the documented direction: "satisfiable only on graphs with an even number of edges in each
+   connected component"): a union S of components containing an odd number of edges => unsatisfiable *)
+Theorem ec_unsat_of_odd_component a n E (S : Z -> bool) l :
+  edges_ok n E = true -> closed_under_edges S E -> ec_ir n E = Some l ->
+  Z.odd (len (filter (fun e => S (fst e)) E)) = true -> irs_hold a l = false.
+Proof.
+  intros Hok Hcl Hl Hodd. destruct (irs_hold a l) eqn:Hs; [exfalso|reflexivity].
+  rewrite (ec_char a n E l Hl) in Hs.
+  pose proof (incidence_count_double a n E S Hok Hcl) as Ha.
+  pose proof (incidence_count_double (fun _ => true) n E S Hok Hcl) as Ht.
+  rewrite esum_eidx_true in Ht.
+  assert (Hd : zsum (fun v => if S v then count_true (fun _ => true) (incident E v) else 0) (rng n) =
+               2 * zsum (fun v => if S v then count_true a (incident E v) else 0) (rng n)).
+  { rewrite <- zsum_scale. apply zsum_ext_in. intros v Hv. apply In_rng in Hv. destruct (S v); [|reflexivity].
+    rewrite count_true_all_pos by (intros i Hi; apply incident_pos in Hi; lia).
+    rewrite (Hs v Hv). reflexivity. }
+  rewrite Hd, Ha in Ht. rewrite <- Z.negb_even in Hodd. apply negb_true_iff in Hodd.
+  assert (Z.even (len (filter (fun e => S (fst e)) E)) = true); [|congruence].
+  apply Z.even_spec. exists (esum a S (eidx E)). lia.
 Qed.
